@@ -7,6 +7,7 @@ package main
 // element by element for slices and maps, the zero value for nil.
 
 import (
+	"math"
 	"encoding/json"
 	"errors"
 	"fmt"
@@ -53,6 +54,27 @@ func (o *c11Obj) Sum(xs ...int64) int64 {
 	return t
 }
 
+// named non-struct types with methods on the value and on the pointer
+type c11Stack []int64
+
+func (s *c11Stack) Push(xs ...int64) int64 { *s = append(*s, xs...); return int64(len(*s)) }
+func (s c11Stack) Top() int64 {
+	if len(s) == 0 {
+		return -1
+	}
+	return s[len(s)-1]
+}
+
+type c11Counter int64
+
+func (c *c11Counter) Add(d int64) (int64, bool) { *c += c11Counter(d); return int64(*c), *c > 4 }
+func (c c11Counter) Twice() int64              { return 2 * int64(c) }
+
+type c11Dict map[string]int64
+
+func (d *c11Dict) Put(k string, v int64) int64 { (*d)[k] = v; return int64(len(*d)) }
+func (d c11Dict) Has(k string) bool            { _, ok := d[k]; return ok }
+
 var c11Types = []struct {
 	name string
 	t    reflect.Type
@@ -68,12 +90,17 @@ var c11Types = []struct {
 	{"map_string_int64", reflect.TypeOf(map[string]int64{})}, {"map_string_iface", reflect.TypeOf(map[string]interface{}{})},
 	{"map_iface_iface", reflect.TypeOf(map[interface{}]interface{}{})}, {"map_int64_string", reflect.TypeOf(map[int64]string{})},
 	{"map_string_sl_int64", reflect.TypeOf(map[string][]int64{})},
+	{"arr2_int64", reflect.TypeOf([2]int64{})}, {"arr3_iface", reflect.TypeOf([3]interface{}{})}, {"arr0_string", reflect.TypeOf([0]string{})},
 }
 
 var c11Values = []c10Val{
 	{"nil", nil}, {"true", true}, {"false", false}, {"0", int64(0)}, {"1", int64(1)}, {"-1", int64(-1)}, {"65", int64(65)}, {"127", int64(127)}, {"128", int64(128)},
 	{"255", int64(255)}, {"256", int64(256)}, {"-129", int64(-129)}, {"65536", int64(65536)}, {"1099511627776", int64(1 << 40)}, {"-1099511627776", int64(-(1 << 40))},
 	{"9223372036854775807", int64(1<<63 - 1)}, {"16777217", int64(16777217)}, {"1.5", 1.5}, {"-2.75", -2.75}, {"0.1", 0.1}, {"3.0", 3.0}, {"16777217.0", 16777217.0}, {"1e10", 1e10},
+	{"-1.5", -1.5}, {"-0.5", -0.5}, {"255.9", 255.9}, {"-129.0", -129.0}, {"4294967296.5", 4294967296.5}, {"1e19", 1e19}, {"1e20", 1e20}, {"-1e19", -1e19},
+	{"9223372036854775808.0", 9223372036854775808.0}, {"18446744073709549568.0", 18446744073709549568.0}, {"18446744073709551616.0", 18446744073709551616.0},
+	{"-9223372036854775808.0", -9223372036854775808.0}, {"1e300", 1e300}, {"1e-300", 1e-300}, {"3.4028235677973366e38", 3.4028235677973366e38}, {"1e-45", 1e-45},
+	{"9007199254740993", int64(9007199254740993)}, {"-16777217", int64(-16777217)}, {"[1.5, -2, 1e20]", []interface{}{1.5, int64(-2), 1e20}},
 	{`""`, ""}, {`"a"`, "a"}, {`"ab"`, "ab"}, {`"é"`, "é"}, {`"12"`, "12"},
 	{"[]", []interface{}{}}, {"[1, 2]", []interface{}{int64(1), int64(2)}}, {"[1, 2.5]", []interface{}{int64(1), 2.5}}, {`[1, "x"]`, []interface{}{int64(1), "x"}},
 	{`["a", "b"]`, []interface{}{"a", "b"}}, {"[[1], [2, 3]]", []interface{}{[]interface{}{int64(1)}, []interface{}{int64(2), int64(3)}}}, {"[nil, 1]", []interface{}{nil, int64(1)}},
@@ -100,6 +127,22 @@ func c11Native(v interface{}, t reflect.Type) (out reflect.Value, ok bool) {
 	}
 	if rv.Type().ConvertibleTo(t) {
 		return rv.Convert(t), true
+	}
+	if rv.Kind() == reflect.Slice && t.Kind() == reflect.Array {
+		// a list for an array parameter: element by element; a list longer than the array has no conversion (a shorter one is
+		// not generated: the interpreter fills up with zero values where Go's own conversion would panic)
+		if rv.Len() > t.Len() {
+			return rv, false
+		}
+		o := reflect.New(t).Elem()
+		for i := 0; i < rv.Len(); i++ {
+			e, eok := c11Native(rv.Index(i).Interface(), t.Elem())
+			if !eok {
+				return rv, false
+			}
+			o.Index(i).Set(e)
+		}
+		return o, true
 	}
 	if rv.Kind() == reflect.Slice && t.Kind() == reflect.Slice {
 		o := reflect.MakeSlice(t, rv.Len(), rv.Len())
@@ -168,6 +211,12 @@ func c11Proj(x interface{}) string {
 		sort.Strings(p)
 		return rv.Type().String() + "{" + strings.Join(p, ",") + "}"
 	}
+	switch f := x.(type) { // floats by their bits: the model has no float printer
+	case float64:
+		return fmt.Sprintf("float64:b%d", math.Float64bits(f))
+	case float32:
+		return fmt.Sprintf("float32:b%d", math.Float32bits(f))
+	}
 	return c10ProjT(x)
 }
 
@@ -232,6 +281,9 @@ func c11Env(h *c11Host) *env.Env {
 		return fmt.Sprint(a, b)
 	})
 	e.Define("applyv", func(f func(...int64) int64) int64 { h.rec("applyv"); return f(1, 2, 3) })
+	e.Define("applyii", func(f func(int64, int64) int64) int64 { h.rec("applyii"); return f(3, 4) })
+	e.Define("apply1v", func(f func(string, ...int64) int64) int64 { h.rec("apply1v"); return f("s", 3, 4) })
+	e.Define("applysl", func(f func(string, []int64) int64) int64 { h.rec("applysl"); return f("s", []int64{5, 6}) })
 	e.Define("applyerr", func(f func(string) (int64, error)) string {
 		n, err := f("in")
 		h.rec("applyerr", n, err)
@@ -245,6 +297,10 @@ func c11Env(h *c11Host) *env.Env {
 	e.Define("each", func(xs []int64, f func(int64)) { h.rec("each", xs); for _, x := range xs { f(x) } })
 	e.Define("obj", c11Obj{N: 10, Name: "o", Tags: []string{"t"}})
 	e.Define("pobj", &c11Obj{N: 20, Name: "p"})
+	e.Define("stk", &c11Stack{})
+	e.Define("ctr", new(c11Counter))
+	e.Define("dict", &c11Dict{})
+	e.Define("vstk", c11Stack{4, 5})
 	e.Define("num8", int8(-5))
 	e.Define("numu", uint16(500))
 	e.Define("f32", float32(0.5))
@@ -293,6 +349,8 @@ func c11ModelVal(v interface{}) string {
 			bs = append(bs, fmt.Sprint(b))
 		}
 		return "(s " + strings.Join(bs, " ") + ")"
+	case float64:
+		return fmt.Sprintf("(f %d)", math.Float64bits(x))
 	case []interface{}:
 		var p []string
 		for _, e := range x {
@@ -304,7 +362,7 @@ func c11ModelVal(v interface{}) string {
 		}
 		return "(l " + strings.Join(p, " ") + ")"
 	}
-	return "" // floats and maps stay outside the Coq conversion model
+	return "" // maps stay outside the Coq conversion model
 }
 
 func c11ModelType(name string) string {
@@ -345,6 +403,12 @@ func c11ModelType(name string) string {
 		return "(slice (slice (int int64 64)))"
 	case "sl_bool":
 		return "(slice (bool))"
+	case "float64":
+		return "(float float64 64)"
+	case "float32":
+		return "(float float32 32)"
+	case "sl_float64":
+		return "(slice (float float64 64))"
 	}
 	return ""
 }
@@ -359,6 +423,9 @@ func c11Cases(rnd *Rand) []c11Case {
 	// 1. conversion product: every value into every parameter type
 	for _, ty := range c11Types {
 		for _, v := range c11Values {
+			if l, isList := v.val.([]interface{}); isList && ty.t.Kind() == reflect.Array && len(l) < ty.t.Len() {
+				continue
+			}
 			conv, ok := c11Native(v.val, ty.t)
 			want := " => error"
 			if ok {
@@ -436,6 +503,14 @@ func c11Cases(rnd *Rand) []c11Case {
 	add("pobj.N = 7; pobj.Get()", " => "+p(int64(7)), "field write through a pointer, value-receiver method on the pointer")
 	add("pobj.Sum(1, 2, 3)", " => "+p(int64(26)), "variadic method")
 	add("pobj.Sum([1, 2]...)", " => "+p(int64(23)), "variadic method, spread")
+	add("stk.Push(1); stk.Push([2, 3]...)", " => "+p(int64(3)), "pointer-receiver variadic method of a named slice type, through a pointer; plain and spread call")
+	add("stk.Push(7); stk.Top()", " => "+p(int64(7)), "value-receiver method of a named slice type through a pointer, after a pointer-receiver call changed it")
+	add("ctr.Add(2); ctr.Add(3)", " => "+p([]interface{}{int64(5), true}), "pointer-receiver method of a named integer type: the Go value is updated, both results come back")
+	add("ctr.Add(2); ctr.Twice()", " => "+p(int64(4)), "value-receiver method of a named integer type through a pointer")
+	add("dict.Put(\"a\", 1); dict.Put(\"b\", 2)", " => "+p(int64(2)), "pointer-receiver method of a named map type")
+	add("dict.Put(\"a\", 1); [dict.Has(\"a\"), dict.Has(\"z\")]", " => "+p([]interface{}{true, false}), "value-receiver method of a named map type through a pointer")
+	add("vstk.Top()", " => "+p(int64(5)), "value-receiver method of a named slice value")
+	add("f = stk.Push; f(1, 2); f(3)", " => "+p(int64(3)), "method value of a pointer-receiver method of a named slice type")
 	add("obj.Nope", " => error", "unknown member")
 	add("pobj.N = \"x\"", " => error", "field write without a conversion")
 	// 6. callbacks
@@ -461,6 +536,19 @@ func c11Cases(rnd *Rand) []c11Case {
 	add("cbany(func(v) { return v == nil })", "cbany() => "+p("true|false|false"), "a callback compares its argument with nil")
 	add("cbmix(func(n, v, l, e) { return [n, v == nil, len(l), e == nil] })", "cbmix() => "+p("[1 true 0 true]|[2 false 1 false]"), "nil and non-nil arguments of several kinds arrive as Go passed them")
 	add("applyv(func(xs) { return len(xs) })", "applyv() => "+p(int64(3)), "callback of a variadic func type receives the variadic slice")
+	// variadic script functions as callbacks: invoked with the arguments Go passes
+	add("applyii(func(xs...) { return xs[0] * 10 + xs[1] })", "applyii() => "+p(int64(34)), "a variadic script function as a callback of a fixed func type receives the arguments Go passes")
+	add("applyii(func(xs...) { return len(xs) })", "applyii() => "+p(int64(2)), "... all of them")
+	add("applyii(func(a, xs...) { return a * 10 + xs[0] })", "applyii() => "+p(int64(34)), "... a fixed parameter first, the rest in the variadic tail")
+	add("applyii(func(a, b, xs...) { return a * 10 + b + len(xs) })", "applyii() => "+p(int64(34)), "... an empty variadic tail")
+	add("applyii(func(a, b) { return a * 10 + b })", "applyii() => "+p(int64(34)), "a fixed script function as a callback of a fixed func type")
+	add("applyv(func(xs...) { return xs[0] * 100 + xs[1] * 10 + xs[2] })", "applyv() => "+p(int64(123)), "a variadic script function as a callback of a variadic func type receives the variadic arguments one by one")
+	add("applyv(func(xs...) { return len(xs) })", "applyv() => "+p(int64(3)), "... all of them")
+	add("apply1v(func(s, xs...) { return len(s) * 100 + xs[0] * 10 + xs[1] })", "apply1v() => "+p(int64(134)), "... after a fixed parameter")
+	add("apply1v(func(xs...) { return len(xs) })", "apply1v() => "+p(int64(3)), "... the fixed argument among them")
+	add("apply1v(func(s, xs) { return xs[0] * 10 + xs[1] })", "apply1v() => "+p(int64(34)), "a fixed script function receives the variadic arguments as the slice Go holds")
+	add("applysl(func(xs...) { return xs[1][0] * 10 + xs[1][1] })", "applysl() => "+p(int64(56)), "a slice argument stays one argument")
+	add("r = nil; applyii(func(xs...) { r = xs; return 0 }); r", "applyii() => "+p([]interface{}{int64(3), int64(4)}), "the arguments arrive with their Go types")
 	add("t = 0; each([1, 2, 3], func(x) { t += x }); t", "each("+p([]int64{1, 2, 3})+") => "+p(int64(6)), "callback invoked with the arguments Go passes")
 	add("apply(1, 5)", " => error", "a non-function where a func is wanted")
 	add("each([1, 2, 3], func(x) { throw \"bad\" })", "each("+p([]int64{1, 2, 3})+") => error", "an error inside a result-less callback is an error of the call")
